@@ -23,7 +23,7 @@ CLAIMS = {
 }
 
 NA = {
-    "C01": "pure function of its input (BatteryDistributionAlgorithm.distribute_power): no schedule, clock, fault or interleaving can change the outcome, so deterministic simulation has nothing to decide; the I/O half of its last sentence (power reported as set == power commanded) is decided under C15",
+    "C01": "pure function of its input (BatteryDistributionAlgorithm.distribute_power): no schedule, clock, fault or interleaving can change the outcome, so deterministic simulation has nothing to decide; what happens to the set-points under per-call API outcomes (succeeded / failed / excess accounting) is decided under C15; the equality of commanded and reported power in C01's last sentence is arithmetic of that function and is NOT decided here (C15's evidence only counts, as a probe, how often the commanded set-points differ from the reported numbers - DESIGN 13.3)",
     "C02": "pure function of its input (same distribution algorithm, bound safety of the returned dict); quantified over inputs/configurations only - not a simulation target",
     "C05": "compiler-correctness statement over expression programs and values (infix->postfix + stack evaluation); the engine's asynchrony is irrelevant to it (alignment is C06, missing values C13)",
     "C12": "deterministic graph algorithm over a static component graph, quantified over topologies and power assignments; no concurrency, time or I/O for the property to depend on",
